@@ -203,9 +203,40 @@ class Tie:
             self._thread.start()
         return self
 
+    def _cache_key(self):
+        """identifies one proof check completely: the regenerated text, the property files, and every static source they can depend on"""
+        import hashlib
+        h = hashlib.sha256()
+        h.update(open(os.path.join(self.dir, self.gen_name + ".v"), "rb").read())
+        for rel in self.props_chain:
+            h.update(open(os.path.join(vlib.COQ, rel), "rb").read())
+        for sub in ("Model", "Proofs"):
+            d = os.path.join(vlib.COQ, sub)
+            for fn in sorted(os.listdir(d)):
+                if fn.endswith(".v"):
+                    h.update(fn.encode())
+                    h.update(open(os.path.join(d, fn), "rb").read())
+        rc, ver = vlib.sh("coqc --version", timeout=30)
+        h.update(ver.encode())
+        return h.hexdigest()[:32]
+
     def _compile_props(self):
+        """coqc of the property chain against this run's regenerated text.  coqc is deterministic: when exactly this check
+        (same regenerated text, same property files, same static sources, same coqc) has succeeded before, its recorded output
+        is reused (the regeneration itself, its type check and all evaluation stages are done every run; a changed source gives
+        another text and therefore a full proof check).  Set VERIF_NO_PROOF_CACHE=1 to force the full check."""
         import time
         t0 = time.time()
+        cdir = os.path.join(vlib.VERIF, ".cache", "parsepost")
+        key = None
+        try:
+            key = self._cache_key()
+            cfile = os.path.join(cdir, key + ".out")
+            if not os.environ.get("VERIF_NO_PROOF_CACHE") and os.path.exists(cfile):
+                self._proof = (True, open(cfile).read(), time.time() - t0, "recorded result of the identical check")
+                return
+        except OSError:
+            key = None
         out = ""
         ok = True
         for rel in self.props_chain:
@@ -213,14 +244,23 @@ class Tie:
             vfile = os.path.join(self.dir, os.path.basename(rel))
             with open(vfile, "w") as f:
                 f.write(src)
-            cmd = "ulimit -s unlimited 2>/dev/null; exec timeout 1500 coqc -q -w -all -Q %s OV -Q %s OVC %s" % (vlib.COQ, self.dir, vfile)
-            rc, o = vlib.sh(cmd, timeout=1530, cwd=self.dir)
+            cmd = "ulimit -s unlimited 2>/dev/null; exec timeout 2400 coqc -q -w -all -Q %s OV -Q %s OVC %s" % (vlib.COQ, self.dir, vfile)
+            rc, o = vlib.sh(cmd, timeout=2430, cwd=self.dir)
             out = o
             if rc != 0:
                 ok = False
                 out = "%s: %s" % (rel, o[-3000:])
                 break
-        self._proof = (ok, out, time.time() - t0)
+        if ok and key is not None:
+            try:
+                os.makedirs(cdir, exist_ok=True)
+                tmp = os.path.join(cdir, key + ".tmp%d" % os.getpid())
+                with open(tmp, "w") as f:
+                    f.write(out)
+                os.replace(tmp, os.path.join(cdir, key + ".out"))
+            except OSError:
+                pass
+        self._proof = (ok, out, time.time() - t0, "coqc")
 
     def finish_T(self):
         """collect the proofs started by run_T: one obligation per Theorem of the last file of the chain"""
@@ -228,7 +268,7 @@ class Tie:
         if self._thread is None:
             return
         self._thread.join()
-        ok, out, dt = self._proof
+        ok, out, dt, how = self._proof
         names = self.theorem_names()
         for n in names:
             ctx.obligation("theorem %s (%s)" % (n, self.props), "theorem", ok, "" if ok else out)
@@ -236,7 +276,7 @@ class Tie:
             ctx.print_assumptions[self.props] = vlib.parse_assumptions(out)
         ctx.checker_cmds.append("coqc -Q coq OV -Q <scratch> OVC %s" % " ".join(self.props_chain))
         ctx.log("T(post): %s.v generated (%d lines), coqc %.1fs; %s: %s in %.1fs (%d theorems)" % (
-            self.gen_name, self._gen_lines, self._dt_gen, " + ".join(self.props_chain), "ok" if ok else "FAILED", dt, len(names)))
+            self.gen_name, self._gen_lines, self._dt_gen, " + ".join(self.props_chain), ("ok (%s)" % how) if ok else "FAILED", dt, len(names)))
         self.proved = ok
 
     # -------------------------------------------------------------- stage 3 (b): translated parse_line vs Python parse_line
@@ -301,7 +341,7 @@ class Tie:
             return
         g = ("g_" if self.isa == "a64" else "x_") + "parse_file"
         gl = ("g_" if self.isa == "a64" else "x_") + "parse_line"
-        defs, rows = [], []
+        defs, rows, kept = [], [], []
         n_ok = 0
         for k, (content, start) in enumerate(files):
             try:
@@ -331,16 +371,40 @@ class Tie:
             defs.append("Definition forc%d (e : string) (a : pyval) : res pyval :=\n  if key_eqb e \"list_element\" then (%s) else\n  %sRaise Unmodelled%s.\n"
                         % (k, le, "".join(body), "".join(" | _ => Raise Unmodelled end" for _ in odefs)))
             rows.append("  (%s forc%d (PStr %s) (PInt %d%%Z), %s)" % (g, k, coq_str(content), start, exp))
+            kept.append((content, start))
             n_ok += 1
-        text = (PRELUDE % self.gen_name + "".join(defs)
+        text = (PRELUDE % self.gen_name + "From OV Require Import Model.ParseFileA64.\n" + "".join(defs)
                 + "Definition cases : list (res pyval * res pyval) := [\n%s ].\n" % ";\n".join(rows)
+                + "Definition inputs : list (string * nat) := [\n%s ].\n" % ";\n".join("  (%s, %d)" % (coq_str(c), st) for c, st in kept)
                 + "Definition bad (i : nat) : bool := match nth_error cases i with Some (r, e) => negb (same_res r e) | None => true end.\n"
-                + "Eval vm_compute in (idxs bad (length cases)).\n")
+                + """(* the hand model of parse_file (Model/ParseFileA64.v file_lines: non-blank lines, numbered position + 1 + start, verbatim) *)
+Definition form_line (v : pyval) : option (Z * string) :=
+  match v with
+  | PObj _ _ f => match assoc "_line_number" f, assoc "_line" f with Some (PInt z), Some (PStr t) => Some (z, t) | _, _ => None end
+  | _ => None
+  end.
+Fixpoint same_lines (l : list pyval) (m : list (nat * string)) : bool :=
+  match l, m with
+  | [], [] => true
+  | v :: t, (n, s) :: u => match form_line v with Some (z, x) => Z.eqb z (Z.of_nat n) && String.eqb x s && same_lines t u | None => false end
+  | _, _ => false
+  end.
+Definition badm (i : nat) : bool :=
+  match nth_error cases i, nth_error inputs i with
+  | Some (Ok (PList l), _), Some (c, st) => negb (same_lines l (file_lines c st))
+  | Some (Raise _, _), _ => false
+  | _, _ => true
+  end.
+"""
+                + "Eval vm_compute in (idxs bad (length cases) ++ \"|\" ++ idxs badm (length cases)).\n")
         ok, out, dt = ctx.coq_eval("post_%s_files" % self.isa, text, timeout=900)
         if not ok:
             ctx.obligation("post-processing parse_file shard evaluates (%s)" % label, "correspondence", False, out[0][-2000:])
             return
-        badidx = [int(x) for x in out[0].split(",") if x]
+        badidx = [int(x) for x in out[0].split("|")[0].split(",") if x]
+        badm = [int(x) for x in out[0].split("|")[1].split(",") if x]
+        ctx.obligation("%s, %d files: translated parse_file = the hand model's file_lines (exactly the non-blank lines, numbered position + 1 + start, "
+                       "verbatim, in order)" % (label, n_ok), "correspondence", not badm, "" if not badm else "files %s, first %r" % (badm[:5], kept[badm[0]]))
         ctx.obligation("%s, %d files: translated parse_file = Python parse_file (line numbers, blank lines skipped, order, every parsed form)"
                        % (label, n_ok), "correspondence", not badidx, "" if not badidx else "files %s" % badidx[:5])
         ctx.coverage.setdefault("post_translator", {})[label + " files"] = {"files": n_ok, "disagreements": len(badidx)}
